@@ -258,6 +258,81 @@ def o_scope11(sn, i, bpr, etype):
     return kslm * cbc * Q / 1000.0
 
 
+# MEEM (Ahrens et al. 2022), written from the published steps with plain floats: per-mode reference indices (given, or
+# smoke number -> mass concentration -> mass index -> number index of a lognormal mode), combustor inlet state along the
+# trajectory, sea-level reference state at the same T3, thrust setting F/Foo, piecewise-linear reference indices over
+# the four certification thrust points PLUS the engine's own peak point of EACH index, altitude adjustment.
+O_THRUST = (0.07, 0.30, 0.85, 1.00)
+O_GMD = (20.0, 20.0, 40.0, 40.0)
+O_PEAK = {'NoMax': None, 'NoMaxNeg': None, 'Max575': 0.575, 'Max925': 0.925}
+
+
+def o_pwl(x, xs, ys):
+    """piecewise-linear through (xs, ys), constant outside"""
+    if x <= xs[0]:
+        return ys[0]
+    if x >= xs[-1]:
+        return ys[-1]
+    for i in range(len(xs) - 1):
+        if xs[i] <= x <= xs[i + 1]:
+            return ys[i] + (ys[i + 1] - ys[i]) * (x - xs[i]) / (xs[i + 1] - xs[i])
+    raise AssertionError
+
+
+def o_meem_curve(modes, peak, peak_thrust):
+    pts = list(zip(O_THRUST, modes))
+    if peak_thrust is not None:
+        pts.append((peak_thrust, peak))
+        pts.sort()
+    return [a for a, _ in pts], [b for _, b in pts]
+
+
+def o_meem(e, pts):
+    """[(GMD, EI mass, EI number) or None where the published steps leave the reals (non-positive pressure)]"""
+    if max(e['sn']) < 0:
+        return [(0.0, 0.0, 0.0)] * len(pts)
+    mass = list(e['mass'])
+    if min(mass) < 0:
+        b = e['bpr'] if e['etype'] == 'MTF' else 0.0
+        mass = []
+        for sn, afr in zip(e['sn'], O_AFR):
+            ci = 0.6484 * math.exp(0.0766 * sn) / (1.0 + math.exp(-1.098 * (sn - 3.064)))
+            q = 0.776 * afr * (1.0 + b) + 0.767
+            cb = ci * (1.0 + b) * 1000.0
+            mass.append(ci * q * math.log((3.219 * cb + 312.5) / (cb + 42.6)))
+    num = list(e['num'])
+    if min(num) < 0:
+        shape = math.exp(4.5 * math.log(1.8) ** 2)
+        num = [6.0 * m / (math.pi * 1e9 * (d * 1e-9) ** 3 * shape) for m, d in zip(mass, O_GMD)]
+    cm = o_meem_curve(mass, e['mass_max'], O_PEAK[e['mass_kind']])
+    cn = o_meem_curve(num, e['num_max'], O_PEAK[e['num_kind']])
+    hmax = max(p[0] for p in pts)
+    pr = e['pr']
+    out, hp = [], pts[0][0]
+    for h, Ta, P, M in pts:
+        rate = h - hp
+        hp = h
+        eta = 0.88 if rate >= 0 else 0.70
+        coef = (0.85 + 0.30 * (h - 3000.0) / max(1.0, hmax - 3000.0)) if rate > 0 else (0.95 if rate == 0 else 0.12)
+        tt = 1.0 + 0.2 * M * M
+        Tt, Pt = Ta * tt, P * tt ** 3.5
+        ratio = 1.0 + coef * (pr - 1.0)
+        if ratio <= 0:
+            out.append(None)
+            continue
+        P3 = Pt * ratio
+        T3 = Tt * (1.0 + (ratio ** (2.0 / 7.0) - 1.0) / eta)
+        base = 1.0 + eta * (T3 / 288.15 - 1.0)
+        if base <= 0:
+            out.append(None)
+            continue
+        P3ref = 101325.0 * base ** 3.5
+        F = (P3ref / 101325.0 - 1.0) / (pr - 1.0)
+        adj = (P3 / P3ref) ** 1.35 * 1.1 ** 2.5
+        out.append((o_pwl(F, O_THRUST, O_GMD), 1e-3 * o_pwl(F, *cm) * adj, o_pwl(F, *cn) * adj))
+    return out
+
+
 def finite_nonneg(xs):
     return all(isinstance(x, (int, float)) and math.isfinite(x) and x >= 0 for x in xs)
 
@@ -906,6 +981,9 @@ def gen_case(rng, kind, count):
                'mass_max': float(rng.uniform(1, 400)), 'mass_kind': rng.choice(['NoMax', 'NoMaxNeg', 'Max575', 'Max925']),
                'num_max': float(math.exp(rng.uniform(math.log(1e13), math.log(1e16)))),
                'num_kind': rng.choice(['NoMax', 'NoMaxNeg', 'Max575', 'Max925'])}
+        for w in ('mass', 'num'):
+            if O_PEAK[edb[w + '_kind']] is None and rng.random() < 0.6:
+                edb[w + '_max'] = rng.choice([float('nan'), -1.0])
         n = rng.randint(5, 9)
         top = rng.uniform(2500, 13000)
         nc = rng.randint(1, n - 2)
@@ -1094,6 +1172,28 @@ def judge(chk: Check, c, impl, model, ext, nox_flat):
                 bad = (f'MEEM mass index not linear in the certification mass indices: {om[1]} vs {c["k"] * o[1]}', None)
             if min(e['num']) > 0 and not rel(on[2], c['k'] * o[2]):
                 bad = (f'MEEM number index not linear in the certification number indices: {on[2]} vs {c["k"] * o[2]}', None)
+        if bad is None:
+            # the published steps, with the number grid built at the NUMBER peak thrust point and the mass grid at the
+            # MASS peak thrust point (the two peaks of an engine need not sit at the same point, either may be absent)
+            want = o_meem(e, c['pts'])
+            names = ('GMD', 'mass index', 'number index')
+            eq_bad = None
+            for i, (o, w) in enumerate(zip(impl['out'], want)):
+                if w is None:
+                    continue
+                for j in (2, 1, 0):
+                    if not rel(o[j], w[j], 1e-9, 1e-300):
+                        # The property asks MEEM for finite, non-negative, linearly scaling indices only - not for
+                        # agreement with the published equations.  A departure from them is therefore reported as a
+                        # broken correspondence (no failing input OF THE PROPERTY), never as a property failure.
+                        eq_bad = (f'MEEM {names[j]} at point {i} (h={c["pts"][i][0]} m, Mach {c["pts"][i][3]}; mass peak '
+                                  f'{e["mass_kind"]}={e["mass_max"]}, number peak {e["num_kind"]}={e["num_max"]}): '
+                                  f'implementation {o[j]}, published steps {w[j]}')
+                        break
+                if eq_bad is not None:
+                    chk.broken('correspondence:published-MEEM-steps (plain-float recomputation)', eq_bad, {'case': c})
+                    break
+            chk.count(f'meem-peaks:{O_PEAK[e["mass_kind"]]}/{O_PEAK[e["num_kind"]]}')
         nontrivial = max(e['sn']) >= 0
 
     if bad is None and k in ('nox', 'hcco'):
@@ -1318,7 +1418,9 @@ def run(chk: Check):
                 'equal-neighbour, fully equal and permuted (non-monotone) fuel flows and log-uniform indices; evaluation '
                 'flows 0, 1e-3 x idle, the calibration flows themselves, the category midpoints, up to 1.3 x the largest; '
                 'ISA and off-ISA ambient states; both shipped fuels and random fuels; SCOPE11 smoke numbers incl. -1, 0, '
-                '> 40; MEEM engines with given / reconstructed mass and number indices and all three max-thrust layouts '
+                '> 40; MEEM engines with given / reconstructed mass and number indices and all three max-thrust layouts, chosen '
+                'independently for the mass and the number index (peaks at different thrust points, only one peak present; an '
+                'absent peak carries a number, NaN or -1), compared with a plain-float recomputation of the published steps '
                 'along climb-cruise-descent profiles.  non-trivial = more than one thrust category hit / positive sulfur / '
                 'some valid smoke number; every case evaluates 8-12 points')
     chk.trusted += ['translator/py2coq.py:NumModule + translator/c12_extract.py (pointwise reading of elementwise numpy code)',
